@@ -103,8 +103,8 @@ func runSeq(h *c06.History) (kit.Case, error) {
 	}, nil
 }
 
-// recachedExpired recognises finding F23 by what was observed: on bbolt the first output that differs
-// between the cached and the uncached instance is a TTLGet that the cache answered with a value
+// recachedExpired recognises finding F23 by what was observed: on bbolt the first output (plain point
+// reads aside) that differs between the cached and the uncached instance is a TTLGet that the cache answered with a value
 // while the storage says the row is gone, and an earlier plain Get/GetBatch of that key had
 // returned a value (bbolt's plain Get ignores the TTL, so the cache stored the expired row again
 // without an expiry)
@@ -117,6 +117,12 @@ func recachedExpired(h *c06.History, cached, plain []string) bool {
 			continue
 		}
 		o := h.Ops[j]
+		if o.Op == "Get" || o.Op == "GetBatch" {
+			// a plain read of an expired row is left open by the interface; once the cleaner has removed
+			// the row physically the uncached instance says "absent" while the cache still serves the
+			// re-cached value: same root cause, the judged difference is the TTLGet that follows
+			continue
+		}
 		if o.Op != "TTLGet" || plain[j] != "RGet None" || !strings.HasPrefix(cached[j], "RGet (Some") {
 			return false
 		}
